@@ -20,6 +20,8 @@ def run(rep):
     mr.rule_keyword_types(rep, "C10.types")
     mr.rule_dialect_triple(rep, "C10.triple")
     cr.rule_input(rep, "C10.isolation")
+    # "its keyword": the keyword a step line is given is the first listed one the line starts with, separator included
+    mr.rule_roles(rep, "C10.roles", "C10.text", want=("roles",))
     # the table: a step keyword listed under two roles of one dialect is ambiguous (type Unknown); only '* ' may be
     dr.rule_data(rep, "C10.data")
     # no hidden state: what the property promises for one use must hold for every later use as well
